@@ -52,12 +52,12 @@ static std::string check_rep(const std::string& s, int zone, bool label, double 
 }
 } // namespace glue
 
-// gc_alt <kind> <a1> <a2> <a3> <a4> <altzone> <prec> <abbrev>
+// gc_alt <kind> <a1> <a2> <a3> <a4> <altzone> <prec> <abbrev> <altzone2>
 //   kind 0: GeoCoords(lat = a1, lon = a2, zone = a3);   kind 1: GeoCoords(zone = a1, northp = a2, easting = a3, northing = a4)
 // the protocol line carries the main state and the kernel (what UTMUPS::Forward returns for the selected alternate zone), the result is the Alt* state
 static Reg r_gcalt("gc_alt", [](const Args& a) {
   using namespace glue;
-  int kind = std::atoi(a[0].c_str()), altz = std::atoi(a[5].c_str()), prec = std::atoi(a[6].c_str()); bool abbrev = a[7] == "1";
+  int kind = std::atoi(a[0].c_str()), altz = std::atoi(a[5].c_str()), prec = std::atoi(a[6].c_str()), altz2 = std::atoi(a[8].c_str()); bool abbrev = a[7] == "1";
   double lat_in = NAN, lon_in = NAN, x_in = NAN, y_in = NAN; int zone_in = 0; bool np_in = false;
   GeoCoords c; std::string e0;
   if (kind == 0) { lat_in = unhx(a[1]); lon_in = unhx(a[2]); zone_in = std::atoi(a[3].c_str()); e0 = guarded([&] { c = GeoCoords(lat_in, lon_in, zone_in); }); }
@@ -92,8 +92,14 @@ static Reg r_gcalt("gc_alt", [](const Args& a) {
   int kz = -99; bool kn = false; double kx = NAN, ky = NAN, kg = NAN, kk = NAN; std::string ek = "-";
   if (es.empty()) ek = guarded([&] { UTMUPS::Forward(m.lat, m.lon, kz, kn, kx, ky, kg, kk, zs); });
   if (!ek.empty()) { kz = -99; kn = false; kx = ky = kg = kk = NAN; }
+  // the same for the second request of the history
+  int zs2 = -99; std::string es2 = guarded([&] { zs2 = UTMUPS::StandardZone(m.lat, m.lon, altz2); });
+  int kz2 = -99; bool kn2 = false; double kx2 = NAN, ky2 = NAN, kg2 = NAN, kk2 = NAN; std::string ek2 = "-";
+  if (es2.empty()) ek2 = guarded([&] { UTMUPS::Forward(m.lat, m.lon, kz2, kn2, kx2, ky2, kg2, kk2, zs2); });
+  if (!ek2.empty()) { kz2 = -99; kn2 = false; kx2 = ky2 = kg2 = kk2 = NAN; }
   current_op() += " " + std::to_string(m.zone) + " " + b(m.northp) + " " + hx(m.E) + " " + hx(m.N) + " " + hx(m.g) + " " + hx(m.k) + " " + hx(m.lat) + " " + hx(m.lon) +
-    " " + b(ek.empty()) + " " + std::to_string(kz) + " " + b(kn) + " " + hx(kx) + " " + hx(ky) + " " + hx(kg) + " " + hx(kk);
+    " " + b(ek.empty()) + " " + std::to_string(kz) + " " + b(kn) + " " + hx(kx) + " " + hx(ky) + " " + hx(kg) + " " + hx(kk) +
+    " " + b(ek2.empty()) + " " + std::to_string(kz2) + " " + b(kn2) + " " + hx(kx2) + " " + hx(ky2) + " " + hx(kg2) + " " + hx(kk2);
   std::string e1 = guarded([&] { c.SetAltZone(altz); });
   if (!same(m, read_main(c))) bad("altzone-changes-the-point", "SetAltZone changed the coordinates proper");
   if (!e1.empty()) {
@@ -102,7 +108,19 @@ static Reg r_gcalt("gc_alt", [](const Args& a) {
     return;
   }
   int az = c.AltZone(); double aE = c.AltEasting(), aN = c.AltNorthing(), aG = c.AltConvergence(), aK = c.AltScale();
-  emit(std::to_string(az) + " " + hx(aE) + " " + hx(aN) + " " + hx(aG) + " " + hx(aK));
+  // history: a second request on the same object (what an interactive user of the class does; the tool resets the object for every line)
+  std::string second;
+  {
+    GeoCoords c2 = c; std::string e2 = guarded([&] { c2.SetAltZone(altz2); });
+    second = e2.empty() ? std::to_string(c2.AltZone()) + " " + hx(c2.AltEasting()) + " " + hx(c2.AltNorthing()) + " " + hx(c2.AltConvergence()) + " " + hx(c2.AltScale()) : e2;
+    if (!same(m, read_main(c2))) bad("altzone-changes-the-point", "the second SetAltZone changed the coordinates proper");
+    // whatever came before, the alternate coordinates after a request are those of a fresh object given the same request
+    GeoCoords f; std::string ef = kind == 0 ? guarded([&] { f = GeoCoords(lat_in, lon_in, zone_in); }) : guarded([&] { f = GeoCoords(zone_in, np_in, x_in, y_in); });
+    std::string e3 = ef.empty() ? guarded([&] { f.SetAltZone(altz2); }) : ef;
+    if (altz2 != UTMUPS::MATCH && (e2.empty() != e3.empty() || (e2.empty() && (f.AltZone() != c2.AltZone() || !eqd(f.AltEasting(), c2.AltEasting()) || !eqd(f.AltNorthing(), c2.AltNorthing()) || !eqd(f.AltConvergence(), c2.AltConvergence()) || !eqd(f.AltScale(), c2.AltScale())))))
+      bad("altzone-history", "SetAltZone(" + std::to_string(altz2) + ") after SetAltZone(" + std::to_string(altz) + ") differs from SetAltZone(" + std::to_string(altz2) + ") on a fresh object");
+  }
+  emit(std::to_string(az) + " " + hx(aE) + " " + hx(aN) + " " + hx(aG) + " " + hx(aK) + " ; " + second);
   bool finite = std::isfinite(m.lat) && std::isfinite(m.lon) && m.zone >= 0 && az >= 0 && std::isfinite(aE) && std::isfinite(aN);
   std::string cls = (m.lat == 0 && !m.northp && az != m.zone) ? " [class:equator-south-label]" : "";
   if (altz == UTMUPS::MATCH) { if (az != m.zone || !eqd(aE, m.E) || !eqd(aN, m.N) || !eqd(aG, m.g) || !eqd(aK, m.k)) bad("altzone-vs-forward", "SetAltZone(MATCH) changed the alternate coordinates"); }
@@ -257,7 +275,8 @@ static void gen_glue(Rng& r, long i, double lat, double lon) {
     int k = r.irange(0, 9);
     int altz = k == 0 ? -3 : k == 1 ? -1 : k == 2 ? -2 : k == 3 ? r.pick(std::vector<int>{-4, -5, 61, 0}) : (z0 > 0 ? std::max(1, std::min(60, z0 + r.irange(-1, 1))) : r.irange(0, 60));
     if (r.irange(0, 15) == 0) lat = r.pick(std::vector<double>{0.0, -0.0, 1e-300, -1e-300});
-    run("gc_alt", {"0", hx(lat), hx(lon), std::to_string(zin), hx(0), std::to_string(altz), std::to_string(r.irange(-6, 10)), b(r.coin())});
+    int altz2 = r.irange(0, 2) == 0 ? zin : r.pick(std::vector<int>{-3, -1, -2, altz, z0 > 0 ? std::max(1, std::min(60, z0 + r.irange(-1, 1))) : 0});
+    run("gc_alt", {"0", hx(lat), hx(lon), std::to_string(zin), hx(0), std::to_string(altz), std::to_string(r.irange(-6, 10)), b(r.coin()), std::to_string(altz2)});
     stratum("geocoords-latlon");
   } else {
     int zone = r.irange(0, 6) == 0 ? 0 : r.irange(1, 60); if (i % 89 == 0) zone = r.pick(std::vector<int>{-4, -1, 61}); bool np = r.coin(); bool utmp = zone > 0;
@@ -272,7 +291,8 @@ static void gen_glue(Rng& r, long i, double lat, double lon) {
     int z0 = -1; { double la, lo; try { UTMUPS::Reverse(zone, np, x, y, la, lo); z0 = UTMUPS::StandardZone(la, lo); } catch (...) {} }
     int k = r.irange(0, 9);
     int altz = k == 0 ? -3 : k == 1 ? -1 : k == 2 ? -2 : k == 3 ? r.pick(std::vector<int>{-4, -5, 61, 0}) : (utmp ? std::max(1, std::min(60, (k < 7 && z0 > 0 ? z0 : zone) + r.irange(-1, 1))) : r.irange(0, 60));
-    run("gc_alt", {"1", std::to_string(zone), b(np), hx(x), hx(y), std::to_string(altz), std::to_string(r.irange(-6, 10)), b(r.coin())});
+    int altz2 = r.irange(0, 2) == 0 ? zone : r.pick(std::vector<int>{-3, -1, -2, altz, z0 > 0 ? std::max(1, std::min(60, z0 + r.irange(-1, 1))) : 0});
+    run("gc_alt", {"1", std::to_string(zone), b(np), hx(x), hx(y), std::to_string(altz), std::to_string(r.irange(-6, 10)), b(r.coin()), std::to_string(altz2)});
     stratum("geocoords-utmups");
   }
   // GeoConvert -u / -c
